@@ -53,8 +53,16 @@ extern ssize_t mpt_array_push(MPT_STRUCT(encode_array) *arr, size_t len, const v
 		if (add < max) {
 			return MPT_ERROR(BadArgument);
 		}
+		/* data may be content of this array: it moves when buffer is replaced */
+		max = -1;
+		if (b && ((const uint8_t *) data >= (const uint8_t *) (b + 1)) && ((const uint8_t *) data < ((const uint8_t *) (b + 1)) + add)) {
+			max = (const uint8_t *) data - (const uint8_t *) (b + 1);
+		}
 		if (!(dest = mpt_array_insert(&arr->_d, add, len))) {
 			return MPT_ERROR(MissingBuffer);
+		}
+		if (max >= 0) {
+			data = ((const uint8_t *) (arr->_d._buf + 1)) + max;
 		}
 		memcpy(dest, data, len);
 		arr->_state.scratch += len;
